@@ -146,6 +146,25 @@ func (p *Program) inferMailbox(n *types.Named, hf *types.Var) *mboxRoles {
 			}
 			continue
 		}
+		// the election may live in a helper of the mailbox ("schedule()") shared by Enqueue and Resume
+		if _, isCall := in.(*ssa.Call); isCall {
+			if h := c.StaticCallee(); h != nil && h != r.Enqueue && h.Signature.Recv() != nil && namedOf(h.Signature.Recv().Type()) == n {
+				for _, hb := range h.Blocks {
+					for _, hin := range hb.Instrs {
+						if _, isGo := hin.(*ssa.Go); isGo {
+							if f := callOf(hin).StaticCallee(); f != nil {
+								r.Consumer = f
+							}
+						}
+						if a := atomicCall(hin); a != nil && a.Field != nil && a.Op == "CAS" && len(a.Args) == 2 {
+							r.Status = a.Field
+							r.IdleVal, _ = constInt(a.Args[0])
+							r.ProcVal, _ = constInt(a.Args[1])
+						}
+					}
+				}
+			}
+		}
 		// push: call whose receiver is a load of a field of the mailbox and that passes the envelope
 		if recv := callRecv(c); recv != nil {
 			if fld, _ := fieldLoad(recv); fld != nil {
@@ -396,6 +415,38 @@ func c01Each(p *Program, r *Report, f func(m *mboxRoles)) {
 	}
 }
 
+// electNodes: the nodes of g that attempt the election — a CAS(status, idle→processing) itself, or a call of a mailbox
+// method that performs one on every path (a shared "schedule()" helper). direct lists the CAS nodes of g itself.
+func (m *mboxRoles) electNodes(p *Program, g *IG) (all, direct map[int]bool) {
+	direct, _, _ = p.casEdges(g, m.Status, &m.ProcVal)
+	isCAS := func(in ssa.Instruction) bool {
+		a := atomicCall(in)
+		if a == nil || a.Op != "CAS" || a.Field != m.Status || len(a.Args) != 2 {
+			return false
+		}
+		v, ok := constInt(a.Args[1])
+		return ok && v == m.ProcVal
+	}
+	all = map[int]bool{}
+	for n := range direct {
+		all[n] = true
+	}
+	for i, in := range g.Nodes {
+		c, ok := in.(*ssa.Call)
+		if !ok {
+			continue
+		}
+		h := c.Call.StaticCallee()
+		if h == nil || h == g.Fn || h == m.Consumer || h.Signature.Recv() == nil || namedOf(h.Signature.Recv().Type()) != m.T {
+			continue
+		}
+		if p.mustDo(h, isCAS, 1) {
+			all[i] = true
+		}
+	}
+	return
+}
+
 func c01Roles(p *Program, r *Report) {
 	c01Each(p, r, func(m *mboxRoles) {
 		r.Lookup(m.T.Obj().Name(), m.T.Obj().Pos(), fmt.Sprintf("sysQ=%s usrQ=%s sysCnt=%s usrCnt=%s status=%s(idle=%d,processing=%d) paused=%s(=%d) consumer=%s loops=%d",
@@ -439,6 +490,29 @@ func c01Election(p *Program, r *Report) {
 				r.Check(ok, fmt.Sprintf("%s: go in %s", tn, fnName(fn)), in.Pos(),
 					"go statement spawns the consumer and is dominated by the success edge of CAS(status, idle→processing)")
 			}
+		}
+		// (a') outside the consumer, a successful election spawns the consumer on every path
+		for _, fn := range m.Methods {
+			if fn == m.Consumer {
+				continue
+			}
+			g := p.ig(fn)
+			cas, succ, _ := p.casEdges(g, m.Status, &m.ProcVal)
+			if len(cas) == 0 {
+				continue
+			}
+			spawn := nodesWhere(g, func(in ssa.Instruction) bool {
+				_, isGo := in.(*ssa.Go)
+				return isGo && callOf(in).StaticCallee() == m.Consumer
+			})
+			ok := len(succ) > 0 && len(spawn) > 0
+			for e := range succ {
+				if !spawn[e.to] && anyIn(g.Reach([]int{e.to}, spawn, nil), g.Exits) {
+					ok = false
+				}
+			}
+			r.Check(ok, fmt.Sprintf("%s: won election in %s spawns the consumer", tn, fnName(fn)), firstPos(g, cas),
+				"from the success edge of CAS(status, idle→processing) every path to the exit passes `go consumer`")
 		}
 		// (b) in the consumer, work after a Store(status, idle) is reachable only through a CAS success edge
 		g := p.ig(m.Consumer)
@@ -593,9 +667,17 @@ func c01Publish(p *Program, r *Report) {
 	c01Each(p, r, func(m *mboxRoles) {
 		tn := m.T.Obj().Name()
 		g := p.ig(m.Enqueue)
-		cas, _, _ := p.casEdges(g, m.Status, &m.ProcVal)
+		cas, _ := m.electNodes(p, g)
 		if len(cas) == 0 {
-			r.Unresolved(tn + ": Enqueue has no election CAS")
+			isCAS := func(in ssa.Instruction) bool {
+				a := atomicCall(in)
+				return a != nil && a.Op == "CAS" && a.Field == m.Status
+			}
+			if p.mayDo(m.Enqueue, isCAS, 0, map[*ssa.Function]bool{}) {
+				r.Violate(tn+": every Enqueue attempts the election", m.Enqueue.Pos(), "the election CAS is reached only through a helper that skips it on some paths: an enqueued message may never wake the mailbox")
+			} else {
+				r.Unresolved(tn + ": Enqueue has no election CAS")
+			}
 			return
 		}
 		env := m.Enqueue.Params[1]
@@ -1064,31 +1146,16 @@ func c01Resume(p *Program, r *Report) {
 				} else {
 					starts = append(starts, g.Succ[i]...)
 				}
-				cas, succ, _ := p.casEdges(g, m.Status, &m.ProcVal)
-				ok := len(starts) > 0 && len(cas) > 0 && len(succ) > 0
+				cas, _ := m.electNodes(p, g)
+				ok := len(starts) > 0 && len(cas) > 0
 				if ok {
 					reach := g.Reach(starts, cas, nil)
 					if anyIn(reach, g.Exits) && !anyIn(cas, starts) {
 						ok = false
 					}
-					spawn := nodesWhere(g, func(in ssa.Instruction) bool {
-						_, isGo := in.(*ssa.Go)
-						return isGo && callOf(in).StaticCallee() == m.Consumer
-					})
-					for e := range succ {
-						if spawn[e.to] {
-							continue
-						}
-						if anyIn(g.Reach([]int{e.to}, spawn, nil), g.Exits) {
-							ok = false
-						}
-					}
-					if len(spawn) == 0 {
-						ok = false
-					}
 				}
 				r.Check(ok, fmt.Sprintf("%s: un-pausing write in %s wakes the mailbox", tn, fnName(fn)), in.Pos(),
-					"after paused is cleared every path to the exit attempts CAS(status, idle→processing) and its success spawns the consumer")
+					"after paused is cleared every path to the exit attempts CAS(status, idle→processing), directly or through a helper that always does (its success spawns the consumer: election rule)")
 			}
 		}
 		if n == 0 {
